@@ -42,14 +42,31 @@ def write_programs(tag, sources):
     return root, paths
 
 
-def compare(tag, paths, src_stage="mono", expected=None, per=12, fuel=FUEL, keep=False):
+def compare(tag, paths, src_stage="mono", expected=None, per=12, fuel=FUEL, keep=False, go_paths=None, extra_dumps=()):
     """-> list of dict(status, verdict, src, go, compile) per path.
-    status: 'agree' | 'differ' | 'skipped' | 'src-stuck' | 'go-stuck' | 'rejected' | 'panic' | 'conv-error'"""
-    res = vlib.run_harness("compile", [{"path": p, "dumps": [src_stage + "_dbg", "go_dbg", "structs_json"]} for p in paths], shards=vlib.NCPU)
+    status: 'agree' | 'differ' | 'skipped' | 'src-stuck' | 'go-stuck' | 'rejected' | 'panic' | 'conv-error'
+    go_paths: take the Go side of case i from another program (cross comparison)"""
+    res = vlib.run_harness("compile", [{"path": p, "dumps": [src_stage + "_dbg", "go_dbg", "structs_json"], "timeout_ms": 20000} for p in paths], shards=vlib.NCPU)
+    gres = None
+    if go_paths is not None:
+        gres = vlib.run_harness("compile", [{"path": p, "dumps": ["go_dbg", *extra_dumps], "timeout_ms": 20000} for p in go_paths], shards=vlib.NCPU)
     out = [None] * len(paths)
     defs = []
     idx = []
     for i, r in enumerate(res):
+        if gres is not None:
+            g = gres[i]
+            if "panic" in g or g.get("timeout"):
+                out[i] = {"status": "panic", "compile": g, "side": "go"}
+                continue
+            if not g.get("ok"):
+                out[i] = {"status": "rejected", "compile": {k: v for k, v in g.items() if k != "go"}, "side": "go"}
+                continue
+            if r.get("ok"):
+                r = dict(r, dumps=dict(r["dumps"], go_dbg=g["dumps"]["go_dbg"]), go=g.get("go"), go_side=g)
+        if r.get("timeout"):
+            out[i] = {"status": "panic", "compile": r}
+            continue
         if "panic" in r:
             out[i] = {"status": "panic", "compile": r}
             continue
@@ -72,7 +89,7 @@ def compare(tag, paths, src_stage="mono", expected=None, per=12, fuel=FUEL, keep
             (i, "Module PS%d. Import Sem.Src. Definition r := run_src %s %s (N.to_nat %d). End PS%d.\nModule PG%d. Import Sem.GoAst Sem.GoSem. Definition r := run_go %s (N.to_nat %d). End PG%d.\nDefinition src_%d := PS%d.r.\nDefinition go_%d := PG%d.r.\n%s" % (i, fns, tab, fuel, i, i, gof, fuel, i, i, i, i, i, exp))
         )
         idx.append(i)
-        out[i] = {"status": None, "go_text": r.get("go")}
+        out[i] = {"status": None, "go_text": r.get("go"), "go_side": r.get("go_side")}
     texts, groups = [], []
     for k in range(0, len(defs), per):
         g = defs[k : k + per]
